@@ -17,6 +17,7 @@ struct FileSpec { std::string path; bool bad; double weight; };
 int main(int argc, char **argv) {
     vr::Args A(argc, argv);
     vr::Runner R;
+    if (A.has("deadline-s")) R.deadline_abs = vr::now_s() + A.getd("deadline-s", 0);
     R.nworkers = (int) A.geti("workers", 8);
     std::vector<FileSpec> files;
     std::string fspec = A.get("files");
